@@ -43,7 +43,15 @@ def generate(seed, tier):
                               'tracers': rnd.choice([0, 1, 2, 3, 2]), 'tr_as': rnd.choice(['list', 'list', 'tuple', 'gen', 'iter']),
                               'supplied': rnd.random() < 0.5, 'req': req,
                               'async': rnd.random() < 0.5})
+    for nt in (1, 2):
+        for is_async in (False, True):
+            for script in ([['nbody', 2000], ['ok']], [['exc', 0], ['nbody', 2000], ['ok']]):
+                cases.append({'script': script + [['ok']], 'client': {'backoff': ['periodic', 2, '0'], 'codes': [2000], 'excs': [0]}, 'per': 'unset',
+                              'jitter': [], 'tracers': nt, 'tr_as': 'list', 'supplied': False, 'req': 'notification', 'async': is_async,
+                              'lenient': True})
     for i, c in enumerate(cases):
+        if c.get('req') == 'batch' and i % 2 == 0:
+            c['bstrict'] = False   # a hand-built BatchRequest(strict=False)
         if i % 4 == 0:
             c['warm'] = True       # the same client, strategy and tracer objects have already served a request
         if i % 3 == 1:
